@@ -1788,6 +1788,23 @@ def permuted_event(spec, perm):
 # correspondence
 
 
+def _uffull_branches(ctx, spec):
+    """what a generated full-matrix case exercises (counted whether or not the implementation answers)"""
+    nontriv = spec["nrb"] < spec["n"]
+    ctx.count("branch:uf-full-layout-" + spec["layout"])
+    ctx.count("branch:uf-full-m-" + spec["mform"])
+    ctx.count("branch:uf-full-b-" + spec["bform"])
+    if spec["rf"] and nontriv:
+        ctx.count("branch:uf-full-with-rf")
+        ctx.count("branch:uf-full-rf-" + spec["rfmode"])
+        if spec.get("rforder"):
+            ctx.count("branch:uf-full-rf-unsorted")
+    if spec["coupled"]:
+        ctx.count("branch:uf-full-coupled")
+    if spec["nonsym"] and nontriv:
+        ctx.count("branch:uf-full-nonsymmetric")
+
+
 def correspondence(ctx):
     rng = ctx.rng
     drv = ctx.driver("C16")
@@ -1870,7 +1887,13 @@ def correspondence(ctx):
         add("uf", u, rq, None)
     for _ in range(ctx.pick(500, 3000)):
         u = gen_uf(rng, full=True)
-        ke, kr = uf_impl_inverse(u)
+        try:
+            ke, kr = uf_impl_inverse(u)
+        except Exception as e:  # the model never refuses these inputs
+            ctx.case(u, nontrivial=False, branch="stream:uf-full")
+            _uffull_branches(ctx, u)
+            ctx.disagree("uf-full-raises", u, "%s: %s" % (type(e).__name__, str(e)[:200]), "a solution")
+            continue
         add("uf-full", u, uffull_requests(u, ke, kr), (ke, kr))
     for a, (top, evs, first) in zip(addmms, addbuilt):
         parts = [res["cat"] for res in evs]
@@ -2029,9 +2052,6 @@ def correspondence(ctx):
             model = uf_parse(got[0])
             if spec["soli"] is not None:
                 model = model + 1j * uf_parse(got[1])
-            impl, pgs = uf_impl_all(spec)
-            impl.pop("inputs_unchanged", None)
-            impl.pop("earlier_unchanged", None)
             nontriv = spec["nrb"] < spec["n"]
             ctx.case(spec, nontrivial=nontriv, branch="stream:uf")
             ctx.count("branch:uf-all-rigid" if not nontriv else ("branch:uf-with-rf" if spec["rf"] else "branch:uf-elastic-only"))
@@ -2039,6 +2059,13 @@ def correspondence(ctx):
                 ctx.count("branch:uf-m-none")
             if spec["soli"] is not None:
                 ctx.count("branch:uf-complex")
+            try:
+                impl, pgs = uf_impl_all(spec)
+            except Exception as e:
+                ctx.disagree("uf-raises", spec, "%s: %s" % (type(e).__name__, str(e)[:200]), "a solution")
+                continue
+            impl.pop("inputs_unchanged", None)
+            impl.pop("earlier_unchanged", None)
             scale = 1.0 + float(np.max(np.abs(model))) if model.size else 1.0
             for disc, outs in impl.items():
                 for u, o in enumerate(outs):
@@ -2047,23 +2074,18 @@ def correspondence(ctx):
                         ctx.disagree("uf-" + disc, spec, {"uf": spec["ufs"][u], "max_abs_diff": err}, "Rat model")
                         break
         elif stream == "uf-full":
-            impl, pgs = uf_impl_all(spec)
+            try:
+                impl, pgs = uf_impl_all(spec)
+            except Exception as e:
+                ctx.case(spec, nontrivial=False, branch="stream:uf-full")
+                _uffull_branches(ctx, spec)
+                ctx.disagree("uf-full-raises", spec, "%s: %s" % (type(e).__name__, str(e)[:200]), "a solution")
+                continue
             unchanged = impl.pop("inputs_unchanged", True)
             impl.pop("earlier_unchanged", None)
             nontriv = spec["nrb"] < spec["n"]
             ctx.case(spec, nontrivial=nontriv, branch="stream:uf-full")
-            ctx.count("branch:uf-full-layout-" + spec["layout"])
-            ctx.count("branch:uf-full-m-" + spec["mform"])
-            ctx.count("branch:uf-full-b-" + spec["bform"])
-            if spec["rf"] and nontriv:
-                ctx.count("branch:uf-full-with-rf")
-                ctx.count("branch:uf-full-rf-" + spec["rfmode"])
-                if spec.get("rforder"):
-                    ctx.count("branch:uf-full-rf-unsorted")
-            if spec["coupled"]:
-                ctx.count("branch:uf-full-coupled")
-            if spec["nonsym"] and nontriv:
-                ctx.count("branch:uf-full-nonsymmetric")
+            _uffull_branches(ctx, spec)
             if not unchanged:
                 ctx.disagree("uf-full-inputs", spec, "the caller's m, b or k changed", "inputs are read only")
             for tag, off in (("given", 0), ("gauss", 1)):
